@@ -6,7 +6,7 @@
    the empty remainder) or two differently named variables at the same
    position, or the same template and method with version ranges that overlap;
    [wf_template]: no repeated variable name, nothing after a wildcard. *)
-From DS Require Import Base Versions VersionsProofs Router RouterSpec RouterProofs Register RegisterProofs.
+From DS Require Import Base Versions VersionsProofs Router RouterSpec RouterProofs Register RegisterProofs RegisterTermination.
 
 Section C02.
   Variable V : Type.
@@ -135,6 +135,22 @@ Section C02.
   Proof. exact (register_accepted_is_insert V cmp). Qed.
 End C02.
 
+(* 6. the scalar test of registration terminates (RegisterTermination.v): the
+   model's fuel is never what stops it once it exceeds a bound computed from
+   the definition table and the schema — the recursion is well founded (each
+   step either enters a definition not yet on the path or descends into a
+   strictly smaller inline schema).  Before fix 97a0ad7 the real function had
+   no such bound: a parameter type containing itself through allOf / anyOf /
+   oneOf overflowed the stack (F10). *)
+Theorem C02_scalar_test_terminates : forall d chk s,
+  exists bound, forall fuel, (bound < fuel)%nat -> is_scalar fuel d chk s <> Err VE_fuel.
+Proof. exact is_scalar_terminates. Qed.
+
+Theorem C02_self_containing_type_refused : forall n d chk f body,
+  lookup_def n d = Some body -> body = SAny [SRef n] \/ body = SAll [SRef n] ->
+  is_scalar (S (S f)) d chk (SRef n) = Ok false.
+Proof. exact direct_self_reference_refused. Qed.
+
 (* non-vacuity: a concrete accepted table (siblings, a variable chain, three
    ranges on one path and method, a wildcard) on which each kind of conflicting
    declaration is refused and a compatible one is accepted; a registration
@@ -196,3 +212,5 @@ Print Assumptions C02_param_mismatch_rejected.
 Print Assumptions C02_path_and_query_rejected.
 Print Assumptions C02_nonscalar_rejected.
 Print Assumptions C02_register_accepted_is_insert.
+Print Assumptions C02_scalar_test_terminates.
+Print Assumptions C02_self_containing_type_refused.
